@@ -1,92 +1,206 @@
 -------------------------- MODULE CypherRead_Trace --------------------------
 (* C01 / C35 / C02 trace specification.  The recorded graph steps rebuild the   *)
 (* LOGICAL property graph G (handles = creation order); every recorded query    *)
-(* outcome of the real engine is judged by CypherRead!Accept, i.e. TLC computes *)
-(* the reference result from the logged graph + AST itself.  Physical steps     *)
-(* (Compact, CreateIndex) and the execution configuration are unobservable:     *)
-(* they do not change G, so every configuration must give the same answer.      *)
+(* outcome of the real engine is judged by CypherRead!Accept / Answers, i.e.    *)
+(* TLC computes the reference result from the logged graph + AST itself.        *)
+(* Physical steps (Compact, CreateIndex) and the execution configuration are    *)
+(* unobservable in the ideal semantics: they do not change G, so every          *)
+(* configuration must give the same answer (C02).                               *)
+(* For the KNOWN C02 deviations the specification also carries the physical     *)
+(* state they depend on, updated the way the store updates it: the content of   *)
+(* the property indexes (G.idx, entries survive REMOVE / label removal / id      *)
+(* reuse), the node ids (G.nid), and the frozen adjacency tier (fz) with the    *)
+(* relationship table of the compacted world (crel), from which phantom         *)
+(* relationships are derived.                                                   *)
 EXTENDS CypherRead, TraceBase
 
 CONSTANT ShapesFile      \* "" or the path of supported_shapes.json ({"shapes": [..]})
 
-VARIABLE G
-tvars == <<G, l, sid, used, failed>>
+VARIABLES G,        \* logical graph (+ nid, idx)
+          hasIdx,   \* a CreateIndex step has been replayed (only executed in the +idx configurations)
+          rid,      \* relationship handle -> id the store gave it
+          crel,     \* relationship table of the +cmp configurations (delete_node may delete more there)
+          fz,       \* frozen tier of the +cmp configurations: entries [s, d, e (ids), r (handle that made the entry)]
+          fzKF      \* names of the open C06 deviations that left stale entries in fz
+pvars == <<G, hasIdx, rid, crel, fz, fzKF>>
+tvars == <<G, hasIdx, rid, crel, fz, fzKF, l, sid, used, failed>>
 
 ToSet(s) == {s[k] : k \in DOMAIN s}
 Supported == IF ShapesFile = "" THEN {} ELSE ToSet(JsonDeserialize(ShapesFile).shapes)
 
-MyKF == {"KF_C01_MultiLabelUnion", "KF_C01_MultiLabelCountMin", "KF_C01_RelIsoPerPathOnly",
-         "KF_C01_KeysCompareStructurally", "KF_C01_VarLengthReachability"}
-Cand == SUBSET (OpenKF \cap MyKF)
-\* ideal first; deviations only when the ideal semantics does not explain the outcome
-Judge(P(_)) == IF P({}) THEN KFs({}) ELSE \E D \in Cand \ {{}} : P(D) /\ KFs(D)
+\* ------------------------------------------------------------------ which deviations can matter for a query
+AllClauses(qq) == UNION {ToSet(qq.parts[pi].clauses) : pi \in DOMAIN qq.parts}
+Matches(qq) == {c \in AllClauses(qq) : c.c = "match"}
+NodePats(c) == UNION {{NodePatAt(c.paths[k], j) : j \in 1..(Len(c.paths[k].segs) + 1)} : k \in DOMAIN c.paths}
+RelPats(c) == UNION {{c.paths[k].segs[j].rel : j \in DOMAIN c.paths[k].segs} : k \in DOMAIN c.paths}
+HasMultiLabel(qq) == \E c \in Matches(qq) : \E n \in NodePats(c) : Len(n.labels) >= 2
+HasMultiPath(qq) == \E c \in Matches(qq) : Len(c.paths) >= 2
+HasVarLen(qq) == \E c \in Matches(qq) : \E r \in RelPats(c) : r.vl
+HasRel(qq) == \E c \in Matches(qq) : RelPats(c) # {}
+HasWhere(qq) == \E c \in AllClauses(qq) : c.c \in {"match", "with"} /\ c.where.e # "none"
+HasLabel(qq) == \E c \in Matches(qq) : \E n \in NodePats(c) : n.labels # <<>>
+FrozenNames == {"KF_DeleteEdge_FrozenKept", "KF_DeleteNode_FrozenKept"}
+IndexNames == {"KF_C02_IndexStaleEntries", "KF_C02_IndexStorageOrder"}
+Applicable(qq) ==
+    (IF HasMultiLabel(qq) THEN {"KF_C01_MultiLabelUnion", "KF_C01_MultiLabelCountMin"} ELSE {})
+    \cup (IF HasMultiPath(qq) THEN {"KF_C01_RelIsoPerPathOnly"} ELSE {})
+    \cup (IF HasDedup(qq) THEN {"KF_C01_KeysCompareStructurally"} ELSE {})
+    \cup (IF HasVarLen(qq) THEN {"KF_C01_VarLengthReachability"} ELSE {})
+    \cup (IF HasLabel(qq) THEN IndexNames ELSE {})
+    \cup (IF HasRel(qq) THEN FrozenNames \cup {"KF_C02_NativePlannerDropsPatternDetails"} ELSE {})
+    \cup (IF HasWhere(qq) THEN {"KF_C02_ParallelFilterSwallowsErrors"} ELSE {})
+\* ideal first; otherwise the MINIMAL sets of open deviations that explain the outcome
+Judge(qq, P(_)) ==
+    IF P({}) THEN KFs({})
+    ELSE \E D \in SUBSET (OpenKF \cap Applicable(qq)) : D # {} /\ P(D) /\ (\A x \in D : ~P(D \ {x})) /\ KFs(D)
 
+\* ------------------------------------------------------------------ graph steps
 StepOK == Ev.res = <<"ok">>
-TInit == G = EmptyGraph /\ TBInit
-T_Reset == ResetBook /\ G' = EmptyGraph
-T_Fail == FailBook /\ G' = EmptyGraph
+EvId == IF "id" \in DOMAIN Ev THEN Ev.id ELSE 0
+TInit == G = EmptyGraph /\ hasIdx = FALSE /\ rid = <<>> /\ crel = <<>> /\ fz = {} /\ fzKF = {} /\ TBInit
+ResetVars == G' = EmptyGraph /\ hasIdx' = FALSE /\ rid' = <<>> /\ crel' = <<>> /\ fz' = {} /\ fzKF' = {}
+T_Reset == ResetBook /\ ResetVars
+T_Fail == FailBook /\ ResetVars
 
-T_CreateNode == IsEv("CreateNode") /\ StepOK /\ G' = AddNode(G, ToSet(Ev.labels), Ev.p, Ev.q) /\ Same
+Keys == {"p", "q"}
+\* index entries of node h under the labels ls for its current (non-null) properties
+Entries(g, h, ls) == {[lb |-> lb, key |-> key, v |-> g.nodes[h].props[key], id |-> g.nid[h]] :
+                         lb \in ls, key \in {k \in Keys : g.nodes[h].props[k].k # "N"}}
+T_CreateNode ==
+    /\ IsEv("CreateNode") /\ StepOK
+    /\ LET g1 == AddNodeId(G, ToSet(Ev.labels), Ev.p, Ev.q, IF EvId = 0 THEN Len(G.nodes) + 1 ELSE EvId)
+           h == Len(g1.nodes)
+       IN G' = IF hasIdx THEN [g1 EXCEPT !.idx = @ \cup Entries(g1, h, g1.nodes[h].labels)] ELSE g1
+    /\ UNCHANGED <<hasIdx, rid, crel, fz, fzKF>> /\ Same
 T_CreateRel ==
     /\ IsEv("CreateRel") /\ StepOK
     /\ Ev.s \in LiveN(G) /\ Ev.d \in LiveN(G)
-    /\ G' = AddRel(G, Ev.s, Ev.d, Ev.t, Ev.p) /\ Same
-T_DeleteNode == IsEv("DeleteNode") /\ StepOK /\ Ev.n \in LiveN(G) /\ G' = DelNode(G, Ev.n) /\ Same
-T_DeleteRel == IsEv("DeleteRel") /\ StepOK /\ Ev.r \in LiveR(G) /\ G' = DelRel(G, Ev.r) /\ Same
+    /\ G' = AddRel(G, Ev.s, Ev.d, Ev.t, Ev.p)
+    /\ crel' = Append(crel, RelRec(Ev.s, Ev.d, Ev.t, Ev.p, Len(crel) + 1))
+    /\ rid' = Append(rid, IF EvId = 0 THEN Len(rid) + 1 ELSE EvId)
+    /\ UNCHANGED <<hasIdx, fz, fzKF>> /\ Same
+\* the live relationship of the compacted world that owns id e (0 if none)
+Owner(e) == IF \E r \in DOMAIN crel : crel[r].live /\ rid[r] = e THEN CHOOSE r \in DOMAIN crel : crel[r].live /\ rid[r] = e ELSE 0
+Kill(rels, S) == [r \in DOMAIN rels |-> IF r \in S THEN [rels[r] EXCEPT !.live = FALSE] ELSE rels[r]]
+T_DeleteNode ==
+    /\ IsEv("DeleteNode") /\ StepOK /\ Ev.n \in LiveN(G)
+    /\ LET i == G.nid[Ev.n]
+           g1 == DelNode(G, Ev.n)
+           \* delete_node walks the frozen entries of the node's id and deletes whatever relationship owns those ids now
+           stale == {Owner(x.e) : x \in {x \in fz : x.s = i \/ x.d = i}} \ {0}
+           inc == {r \in DOMAIN crel : crel[r].live /\ (crel[r].s = Ev.n \/ crel[r].d = Ev.n)}
+       IN /\ G' = IF hasIdx THEN [g1 EXCEPT !.idx = @ \ Entries(G, Ev.n, G.nodes[Ev.n].labels)] ELSE g1
+          /\ crel' = Kill(crel, inc \cup stale)
+          /\ fzKF' = IF \E x \in fz : x.r \in inc THEN fzKF \cup {"KF_DeleteNode_FrozenKept"} ELSE fzKF
+    /\ UNCHANGED <<hasIdx, rid, fz>> /\ Same
+T_DeleteRel ==
+    /\ IsEv("DeleteRel") /\ StepOK /\ Ev.r \in LiveR(G)
+    /\ G' = DelRel(G, Ev.r)
+    /\ crel' = Kill(crel, {Ev.r})
+    /\ fzKF' = IF \E x \in fz : x.r = Ev.r THEN fzKF \cup {"KF_DeleteEdge_FrozenKept"} ELSE fzKF
+    /\ UNCHANGED <<hasIdx, rid, fz>> /\ Same
 T_SetNodeProp ==
     /\ IsEv("SetNodeProp") /\ StepOK /\ Ev.n \in LiveN(G)
-    /\ G' = [G EXCEPT !.nodes[Ev.n].props[Ev.key] = Ev.v] /\ Same
+    /\ LET g1 == [G EXCEPT !.nodes[Ev.n].props[Ev.key] = Ev.v]
+           ls == G.nodes[Ev.n].labels
+           old == {[lb |-> lb, key |-> Ev.key, v |-> G.nodes[Ev.n].props[Ev.key], id |-> G.nid[Ev.n]] : lb \in ls}
+           new == {[lb |-> lb, key |-> Ev.key, v |-> Ev.v, id |-> G.nid[Ev.n]] : lb \in ls}
+       IN G' = IF hasIdx THEN [g1 EXCEPT !.idx = (@ \ old) \cup new] ELSE g1
+    /\ UNCHANGED <<hasIdx, rid, crel, fz, fzKF>> /\ Same
+\* remove_node_property does not touch the property index: the entry stays (physical state only)
 T_RemoveNodeProp ==
     /\ IsEv("RemoveNodeProp") /\ StepOK /\ Ev.n \in LiveN(G)
-    /\ G' = [G EXCEPT !.nodes[Ev.n].props[Ev.key] = VNull] /\ Same
+    /\ G' = [G EXCEPT !.nodes[Ev.n].props[Ev.key] = VNull]
+    /\ UNCHANGED <<hasIdx, rid, crel, fz, fzKF>> /\ Same
 T_SetRelProp ==
     /\ IsEv("SetRelProp") /\ StepOK /\ Ev.r \in LiveR(G)
-    /\ G' = [G EXCEPT !.rels[Ev.r].props.p = Ev.v] /\ Same
+    /\ G' = [G EXCEPT !.rels[Ev.r].props.p = Ev.v]
+    /\ crel' = [crel EXCEPT ![Ev.r].props.p = Ev.v]
+    /\ UNCHANGED <<hasIdx, rid, fz, fzKF>> /\ Same
 T_AddLabel ==
     /\ IsEv("AddLabel") /\ StepOK /\ Ev.n \in LiveN(G)
-    /\ G' = [G EXCEPT !.nodes[Ev.n].labels = @ \cup {Ev.label}] /\ Same
+    /\ LET g1 == [G EXCEPT !.nodes[Ev.n].labels = @ \cup {Ev.label}] IN
+       G' = IF hasIdx THEN [g1 EXCEPT !.idx = @ \cup Entries(g1, Ev.n, {Ev.label})] ELSE g1
+    /\ UNCHANGED <<hasIdx, rid, crel, fz, fzKF>> /\ Same
+\* remove_label_from_node does not touch the property index either
 T_RemoveLabel ==
     /\ IsEv("RemoveLabel") /\ StepOK /\ Ev.n \in LiveN(G)
-    /\ G' = [G EXCEPT !.nodes[Ev.n].labels = @ \ {Ev.label}] /\ Same
+    /\ G' = [G EXCEPT !.nodes[Ev.n].labels = @ \ {Ev.label}]
+    /\ UNCHANGED <<hasIdx, rid, crel, fz, fzKF>> /\ Same
 \* physical steps: no logical effect
-T_Compact == IsEv("Compact") /\ StepOK /\ G' = G /\ Same
-T_CreateIndex == IsEv("CreateIndex") /\ StepOK /\ G' = G /\ Same
+T_Compact ==
+    /\ IsEv("Compact") /\ StepOK /\ G' = G
+    /\ fz' = fz \cup {[s |-> G.nid[crel[r].s], d |-> G.nid[crel[r].d], e |-> rid[r], r |-> r] : r \in {r \in DOMAIN crel : crel[r].live}}
+    /\ UNCHANGED <<hasIdx, rid, crel, fzKF>> /\ Same
+T_CreateIndex ==
+    /\ IsEv("CreateIndex") /\ StepOK
+    /\ hasIdx' = TRUE
+    /\ G' = [G EXCEPT !.idx = @ \cup UNION {Entries(G, h, G.nodes[h].labels) : h \in LiveN(G)}]
+    /\ UNCHANGED <<rid, crel, fz, fzKF>> /\ Same
 
-\* C01: one execution
+\* ------------------------------------------------------------------ C01: one execution
 T_Query ==
     /\ IsEv("Query") /\ "out" \in DOMAIN Ev /\ "pouts" \notin DOMAIN Ev
-    /\ G' = G
-    /\ LET P(D) == Accept(G, Ev.q, Ev.out, Ev.shape \in Supported, D) IN Judge(P)
+    /\ UNCHANGED pvars
+    /\ LET P(D) == Accept(G, Ev.q, Ev.out, Ev.shape \in Supported, D) IN Judge(Ev.q, P)
 
-\* C35: the same query with literal slots as $parameters (one execution per position class that holds a literal).
+\* ------------------------------------------------------------------ C35
+\* the same query with literal slots as $parameters (one execution per position class that holds a literal).
 \* A parameterised execution may be refused; if it answers, the answer must be one the reference semantics allows
 \* and, when the inlined execution answered and the query has no SKIP/LIMIT freedom, the same bag.
-Windowless(qq) == \A pi \in DOMAIN qq.parts : \A i \in DOMAIN qq.parts[pi].clauses :
-                     LET c == qq.parts[pi].clauses[i] IN c.c \in {"with", "return"} => ~HasWindow(c)
+Windowless(qq) == \A c \in AllClauses(qq) : c.c \in {"with", "return"} => ~HasWindow(c)
 OutBag(qq, o) == LET R == [i \in DOMAIN o.rows |-> FinalRow(qq, o.rows[i].r)] IN
                  [x \in Range(R) |-> WSum({i \in DOMAIN R : R[i] = x}, [i \in DOMAIN R |-> o.rows[i].m])]
 T_QueryP ==
     /\ IsEv("Query") /\ "pouts" \in DOMAIN Ev
-    /\ G' = G
+    /\ UNCHANGED pvars
     /\ LET P(D) == \A i \in DOMAIN Ev.pouts :
                       LET po == Ev.pouts[i].out IN
                       \/ po.res = "err"
                       \/ /\ Answers(G, Ev.q, po, D)
                          /\ (Ev.out.res = "ok" /\ Windowless(Ev.q)) => OutBag(Ev.q, Ev.out) = OutBag(Ev.q, po)
-       IN Judge(P)
+       IN Judge(Ev.q, P)
 
-\* C02: one outcome per distinct result over the configuration matrix; cfgs = the configurations that produced it.
+\* ------------------------------------------------------------------ C02
+\* one outcome per distinct result over the configuration matrix; cfgs = the configurations that produced it.
 \* On a store holding k disjoint copies of the history a linear query returns every row k times.
 Scaled(o) == IF o.res # "ok" \/ o.copies = 1 THEN o
              ELSE [o EXCEPT !.rows = [j \in DOMAIN o.rows |-> [r |-> o.rows[j].r, m |-> o.rows[j].m \div o.copies]]]
 ScaleOK(o) == o.res # "ok" \/ \A j \in DOMAIN o.rows : o.rows[j].m % o.copies = 0
+\* the physical graph of the +cmp configurations: its own relationship table plus one phantom per stale frozen entry
+\* whose relationship id is owned by a live relationship again (reported under that relationship's handle)
+NodeOf(i) == IF \E h \in LiveN(G) : G.nid[h] = i THEN CHOOSE h \in LiveN(G) : G.nid[h] = i ELSE 0
+RECURSIVE SetSeq(_)
+SetSeq(S) == IF S = {} THEN <<>> ELSE LET x == CHOOSE x \in S : TRUE IN <<x>> \o SetSeq(S \ {x})
+Phantoms == {x \in fz : ~crel[x.r].live /\ Owner(x.e) # 0 /\ NodeOf(x.s) # 0 /\ NodeOf(x.d) # 0}
+Gphys ==
+    LET ph == SetSeq(Phantoms) IN
+    [G EXCEPT !.rels = crel \o [k \in DOMAIN ph |->
+        LET o == crel[Owner(ph[k].e)] IN
+        [live |-> TRUE, s |-> NodeOf(ph[k].s), d |-> NodeOf(ph[k].d), t |-> o.t, props |-> o.props, h |-> o.h]]]
+\* the deviations that are physically possible in a configuration
+Possible(cfg) ==
+    {"KF_C01_MultiLabelUnion", "KF_C01_MultiLabelCountMin", "KF_C01_RelIsoPerPathOnly", "KF_C01_KeysCompareStructurally",
+     "KF_C01_VarLengthReachability"}
+    \cup (IF cfg.idx /\ hasIdx THEN IndexNames ELSE {})
+    \cup (IF cfg.nat THEN {"KF_C02_NativePlannerDropsPatternDetails"} ELSE {})
+    \cup (IF cfg.par /\ cfg.k >= 256 THEN {"KF_C02_ParallelFilterSwallowsErrors"} ELSE {})
+    \cup (IF cfg.cmp THEN fzKF ELSE {})
+OkFor(o, cfg, D) ==
+    \E D2 \in SUBSET (D \cap Possible(cfg)) :
+       /\ D2 \cap FrozenNames = {} \/ fzKF \subseteq D2
+       /\ LET g == IF D2 \cap FrozenNames = {} THEN G ELSE Gphys IN
+          \/ o.res = "ok" /\ ScaleOK(o) /\ Answers(g, Ev.q, Scaled(o), D2)
+          \/ o.res = "err" /\ MayFail(g, Ev.q, D2)
 T_QueryC ==
     /\ IsEv("Query") /\ "outs" \in DOMAIN Ev
-    /\ G' = G
+    /\ UNCHANGED pvars
     /\ LET sup == Ev.shape \in Supported
-           P(D) == \/ \A i \in DOMAIN Ev.outs : Ev.outs[i].out.res = "err" /\ (sup => MayFail(G, Ev.q, D))
-                   \/ \A i \in DOMAIN Ev.outs : ScaleOK(Ev.outs[i].out) /\ Answers(G, Ev.q, Scaled(Ev.outs[i].out), D)
-       IN Judge(P)
+           \* configurations are distinguished only by what they make possible
+           classes(i) == {[idx |-> c.idx, cmp |-> c.cmp, nat |-> c.nat, par |-> c.par, k |-> c.k] : c \in ToSet(Ev.outs[i].cfgs)}
+           P(D) == \/ \A i \in DOMAIN Ev.outs : Ev.outs[i].out.res = "err" /\ (sup => MayFail(G, Ev.q, {}))
+                   \/ \A i \in DOMAIN Ev.outs : \A cfg \in classes(i) : OkFor(Ev.outs[i].out, cfg, D)
+       IN Judge(Ev.q, P)
 
 TNext == \/ T_Fail \/ T_Reset \/ T_CreateNode \/ T_CreateRel \/ T_DeleteNode \/ T_DeleteRel \/ T_SetNodeProp
          \/ T_RemoveNodeProp \/ T_SetRelProp \/ T_AddLabel \/ T_RemoveLabel \/ T_Compact \/ T_CreateIndex
